@@ -40,6 +40,15 @@ TARGETS = [
     dict(name="wrath_encrypt_server_header", file="src/wrath_header/encrypt.rs", fn="encrypt_server_header", kind="method",
          fields=[("encrypt", "opaque"), ("server_header", ("arr", "u8"))], helpers=[], free_helpers=["set_large_header"],
          externs={"self.encrypt": ("ext_apply", "self.encrypt")}, ret=("arr", "u8"), consts={"SERVER_HEADER_MINIMUM_LENGTH": ("wrath_server_header_min_length", "u8")}),
+    dict(name="srp_calculate_password_verifier", file="src/srp_internal.rs", fn="calculate_password_verifier", kind="formula",
+         calls={"calculate_x": ("calculate_x", "pure")}),
+    dict(name="srp_calculate_server_public_key", file="src/srp_internal.rs", fn="calculate_server_public_key", kind="formula",
+         res_calls={"PublicKey::try_from_bigint": "pk_try_from_bigint be"}),
+    dict(name="srp_calculate_S", file="src/srp_internal.rs", fn="calculate_S", kind="formula", into="key_from_bigint be (N.to_nat s_length)"),
+    dict(name="srp_calculate_client_public_key", file="src/srp_internal_client.rs", fn="calculate_client_public_key", kind="formula",
+         gen_params=["generator"], prime_params=["large_safe_prime"], res_calls={"PublicKey::client_try_from_bigint": "pk_client_try_from_bigint be"}),
+    dict(name="srp_calculate_client_S", file="src/srp_internal_client.rs", fn="calculate_client_S", kind="formula",
+         gen_params=["generator"], prime_params=["large_safe_prime"]),
     dict(name="key_check_public_key", file="src/key.rs", fn="check_public_key", kind="function", ret="unit + pk_error"),
     dict(name="normalized_string_new", file="src/normalized_string.rs", fn="inner", kind="function", ret="nstr_view + ns_error",
          consts={"MAXIMUM_STRING_LENGTH_IN_BYTES": ("max_string_length", "u8")}),
@@ -180,6 +189,26 @@ def method(t, src):
     note = "(* %s fn %s(&mut self%s); fields %s; helpers inlined: %s *)" % (t["file"], t["fn"], "".join(", " + a for a in args), " ".join(fields), " ".join(helpers) or "-")
     return note + "\n" + head
 
+def formula(t, src):
+    """a big-integer formula of srp_internal(.rs|_client.rs): byte arrays in, modelled integer operations"""
+    ps, ret, body = free_fn(src, t["fn"])
+    env, names = {}, []
+    for name, ty in ps:
+        if name in t.get("gen_params", ()): env[name] = ("v_" + name, "u8"); names.append("(v_%s : N)" % name)
+        else: env[name] = ("v_" + name, ("arr", "u8")); names.append("(v_%s : list N)" % name)
+    g = Gen(env, dict(CONSTS))
+    g.identity_calls = set(IDENTITY) | {"SKey::from_le_bytes"}
+    g.calls = dict(t.get("calls", {}))
+    g.big = dict(be="be", into=t.get("into"), gen_params=set(t.get("gen_params", ())), prime_params=set(t.get("prime_params", ())),
+                 res_calls=dict(t.get("res_calls", {})))
+    blk = Parser(tokenize(body)).block()
+    def final(tail):
+        if tail is None: raise Untranslatable("formula without a result")
+        return tail[0] if tail[1] == "resopt" else "Some %s" % tail[0]
+    text = g.stmts(blk, final)
+    head = "Definition tr_%s (be : backend) %s :=\n  %s." % (t["name"], " ".join(names), text)
+    return "(* %s fn %s *)\n%s" % (t["file"], t["fn"], head)
+
 def function(t, src):
     """free function: parameters by value or &mut array; result = (mutable array params.., tail value)"""
     ps, ret, body = free_fn(src, t["fn"])
@@ -251,12 +280,13 @@ def api(t, src):
 
 def main():
     out = ["(* GENERATED by tools/extract_steps.py from the Rust sources under /repo/src. Do not edit. *)",
-           "From Coq Require Import List NArith.", "From WS Require Import lib.Bytes lib.Res lib.Tape lib.StepLoop Consts model.Bigint model.Srp.", "From WS Require Import model.Key model.NormalizedString.", "Definition nstr_view : Type := (list N * N)%type.", "From WS Require model.Vanilla model.Tbc model.Wrath model.WorldProof.", "Import ListNotations.", "Local Open Scope N_scope.", ""]
+           "From Coq Require Import List NArith.", "From WS Require Import lib.Bytes lib.Res lib.Tape lib.StepLoop Consts model.Bigint model.Srp.", "From WS Require Import model.Key model.NormalizedString.", "Definition nstr_view : Type := (list N * N)%type.",
+           "Definition res_view {A E} (r : res A E) : option (A + E) := match r with Ok a => Some (inl a) | Err e => Some (inr e) | Panic => None end.", "From WS Require model.Vanilla model.Tbc model.Wrath model.WorldProof.", "Import ListNotations.", "Local Open Scope N_scope.", ""]
     failed = []
     for t in TARGETS:
         try:
             src = strip_comments(open(os.path.join(REPO, t["file"])).read())
-            out.append({"slice_loop": slice_loop, "method": method, "function": function, "api": api}[t["kind"]](t, src))
+            out.append({"slice_loop": slice_loop, "method": method, "function": function, "api": api, "formula": formula}[t["kind"]](t, src))
         except (Untranslatable, OSError) as e:
             failed.append((t["name"], str(e)))
             out.append("(* %s: NOT TRANSLATED: %s *)" % (t["name"], str(e).replace("*)", "* )")))
